@@ -276,7 +276,9 @@ func (g *Grammar) ComputeGotoItemNoneRec(IC *item.ItemCloure) {
 		} // if Dot == len, just return
 	}
 
-	for _, goItem := range IC.GoToMap {
+	// IC.GoTo holds the same entries as IC.GoToMap in insertion order: the
+	// state numbering must not depend on map iteration order
+	for _, goItem := range IC.GoTo {
 		IcTemp := goItem.ICref
 		var index_goto int = -1
 		if exist_index, exist := g.LR0.CheckIsExist(IcTemp); exist {
